@@ -900,7 +900,7 @@ func (s *Server) startGoroutine(f func()) {
 // Done() on the provided WaitGroup upon completion. This adds the goroutine to
 // a WaitGroup so that the server can wait for all running goroutines to stop
 // on shutdown. This should be used instead of a "naked" goroutine.
-func (s *Server) startGoroutineWG(f func(), wg sync.WaitGroup) {
+func (s *Server) startGoroutineWG(f func(), wg *sync.WaitGroup) {
 	select {
 	case <-s.shutdownCh:
 		return
@@ -937,7 +937,7 @@ func (s *Server) startGoroutineWithArgs(f func(...interface{}), args ...interfac
 // WaitGroup upon completion. This adds the goroutine to a WaitGroup so that
 // the server can wait for all running goroutines to stop on shutdown. This
 // should be used instead of a "naked" goroutine.
-func (s *Server) startGoroutineWithArgsWG(f func(...interface{}), wg sync.WaitGroup, args ...interface{}) {
+func (s *Server) startGoroutineWithArgsWG(f func(...interface{}), wg *sync.WaitGroup, args ...interface{}) {
 	select {
 	case <-s.shutdownCh:
 		return
